@@ -54,7 +54,7 @@ def r1_merge_chain(ctx):
     ctx.rule('C18.R1', 'P7 provenance: the receiver of Figment::extract in ConfigLoader::load is a chain of exactly three Figment::merge calls '
              '(no join/adjoin/admerge anywhere in the function) whose providers are, in order: Yaml::file(dir.join("base.yml")), '
              'Yaml::file(dir.join(format!("{}.yml", profile.as_ref()))), Env::prefixed("PX_").split("__").ignore(strip_prefix("PX_","PX_PROFILE")); '
-             'P2: the ignore() call dominates the third merge.')
+             'P2: the ignore() call dominates the third merge and each merge dominates extract() (no layer is conditional).')
     body = ctx.need('C18.R1', LOAD, ctx.fb.body(CR, LOAD))
     if body is None:
         return
@@ -75,6 +75,10 @@ def r1_merge_chain(ctx):
     in_ext = recv_merges(ext[0][1])
     ctx.ob('C18.R1', 'extract-on-the-chain', len(in_ext) == 3, body.loc(ext[0][0]),
            'extract() is called on a value derived from %d merge call(s)' % len(in_ext))
+    for i, t in enumerate(chain[:3]):
+        mb = [bb for bb, tt in combos if tt is t][0]
+        ctx.ob('C18.R1', 'merge-%d|unconditional' % (i + 1), body.dominates(mb, ext[0][0]), body.loc(mb, t),
+               'merge #%d is executed on every path that reaches extract() (a layer that is merged only under a run-time test is a layer that can be skipped)' % (i + 1))
     expect = [('base file', {'figment::providers::data::Format::file', 'std::path::Path::join'}, ['base.yml']),
               ('profile file', {'figment::providers::data::Format::file', 'std::path::Path::join', 'core::convert::AsRef::as_ref'}, ['.yml']),
               ('environment', {'figment::providers::env::Env::prefixed', 'figment::providers::env::Env::split', 'figment::providers::env::Env::ignore'}, ['PX_', '__'])]
